@@ -139,9 +139,12 @@ def main():
             ov = None                       # sample_layer_filtered has no format override
             if dflt == "png":
                 kind = "rgb"
-        depth = rng.choice([0, 1, 2, 2, 3] if h.deep else [0, 1, 2, 2]) if not filtered else rng.choice([1, 2, 3] if h.deep else [1, 2, 2])
+        depth = rng.choice([0, 1, 2, 2, 3] if h.deep else [0, 1, 2, 2]) if not filtered else rng.choice([0, 1, 2, 3] if h.deep else [0, 1, 2, 2])
         planetary = rng.random() < 0.5
         configs.append((dflt, ov, kind, filtered, depth, planetary))
+    # always: the whole-sphere tile through the filtered entry point, planetary (the only tile whose coordinates depend on the
+    # coordinate system handed to the sampler rather than on the Tile)
+    configs.append(("npy", None, "f64", True, 0, True))
     try:
         for ci, (dflt, ov, kind, filtered, depth, planetary) in enumerate(configs):
             cs = CS.PLANETARY if planetary else CS.ASTRONOMICAL
@@ -149,7 +152,7 @@ def main():
             bottom_up = wf == "fits"
             if filtered:
                 acc = rand_accept(rng, depth)
-                leaves = sorted(p for p in acc if p[0] == depth)
+                leaves = sorted(p for p in acc if p[0] == depth) if depth >= 1 else [(0, 0, 0)]      # the whole-sphere tile is never filtered
                 if kind == "rgb":
                     passes = [Sampler("rgb", salt=1), Sampler("rgb", salt=2)]
                 else:
